@@ -1601,7 +1601,9 @@ func (v *VMValue) FuncInvokeRaw(ctx *Context, params []*VMValue, useUpCtxLocal b
 		return nil
 	}
 
-	if cd.code == nil {
+	if cd.code == nil && strings.TrimSpace(cd.Expr) == "" {
+		// 空函数体(如 func f() {} 序列化后再恢复): 没有可编译的内容，与直接定义时一样返回 null
+	} else if cd.code == nil {
 		_ = vm.Run(cd.Expr)
 		cd.code = vm.code
 		cd.codeIndex = vm.codeIndex
